@@ -65,6 +65,20 @@ func init() {
 				heurCoarsen(r, q, r.rangeInt(2, 4))
 			}
 			heurShapeWeights(r, mp["weights"].(J))
+			if r.chance(0.08) {
+				// large magnitudes: value differences far above the absolute tolerance 1e-6 but tiny relative to the values
+				base := []float64{24000, 1e6}[r.Intn(2)]
+				for _, a := range q.Body["knownAlternatives"].([]interface{}) {
+					vals := a.(J)["criteria"].(J)
+					for _, k := range sortedJKeys(vals) {
+						vals[k] = base + float64(r.Intn(5))*0.005
+					}
+				}
+				for _, cj := range q.Body["criteria"].([]interface{}) {
+					delete(cj.(J), "valuesRange")
+				}
+				o.count("large-magnitude-near-ties")
+			}
 			switch k := r.Intn(100); {
 			case k < 3:
 				mp["drawResolution"] = "bogus"
